@@ -364,11 +364,70 @@ var Entries = []Entry{
 	}},
 }
 
+// Composites are conversions chained behind a parser: further ways to obtain the
+// same structure from the same bytes (used by C19 only; not part of Entries).
+var Composites = []Entry{
+	{Name: "key_certificate.KeyCertificateFromCertificate(certificate.ReadCertificate)", HasRem: true, Group: "cert", Parse: func(in []byte, _ int) Result {
+		c, rem, err := certificate.ReadCertificate(in)
+		if err != nil || c == nil {
+			return Result{Err: err, Rem: rem}
+		}
+		kc, err := key_certificate.KeyCertificateFromCertificate(c)
+		r := Result{Err: err, Rem: rem, Value: kc}
+		if err == nil && kc != nil {
+			r.Accepted = true
+			r.Serial = kc.Bytes()
+		}
+		return r
+	}},
+	{Name: "router_identity.ReadRouterIdentity.AsDestination", HasRem: true, Group: "ident", Parse: func(in []byte, _ int) Result {
+		ri, rem, err := router_identity.ReadRouterIdentity(in)
+		if err != nil || ri == nil {
+			return Result{Err: err, Rem: rem}
+		}
+		d := ri.AsDestination()
+		r := Result{Accepted: true, Rem: rem, Value: &d}
+		r.Serial, r.SerErr = d.Bytes()
+		return r
+	}},
+	{Name: "router_identity.NewRouterIdentityFromKeysAndCert(destination.ReadDestination)", HasRem: true, Group: "ident", Parse: func(in []byte, _ int) Result {
+		d, rem, err := destination.ReadDestination(in)
+		if err != nil || d.KeysAndCert == nil {
+			return Result{Err: err, Rem: rem}
+		}
+		ri, err := router_identity.NewRouterIdentityFromKeysAndCert(d.KeysAndCert)
+		r := Result{Err: err, Rem: rem, Value: ri}
+		if err == nil && ri != nil {
+			r.Accepted = true
+			r.Serial, r.SerErr = ri.Bytes()
+		}
+		return r
+	}},
+	{Name: "destination.NewDestination(keys_and_cert.ReadKeysAndCert)", HasRem: true, Group: "ident", Parse: func(in []byte, _ int) Result {
+		k, rem, err := keys_and_cert.ReadKeysAndCert(in)
+		if err != nil || k == nil {
+			return Result{Err: err, Rem: rem}
+		}
+		d, err := destination.NewDestination(k)
+		r := Result{Err: err, Rem: rem, Value: d}
+		if err == nil && d != nil {
+			r.Accepted = true
+			r.Serial, r.SerErr = d.Bytes()
+		}
+		return r
+	}},
+}
+
 // ByName finds an entry.
 func ByName(name string) *Entry {
 	for i := range Entries {
 		if Entries[i].Name == name {
 			return &Entries[i]
+		}
+	}
+	for i := range Composites {
+		if Composites[i].Name == name {
+			return &Composites[i]
 		}
 	}
 	return nil
